@@ -35,10 +35,15 @@ var vTickLog []vTickCall
 func vStubIntervalTicks(ts time.Time, index, intervalsPerDay int64) uint32 {
 	t := ts.Unix()*1000000000 + int64(ts.Nanosecond())
 	k := uint32(rt.Fresh("ticks", 0, 4294967295))
+	// resolution step: interval length / 2^32 (rounded up), in nanoseconds
+	step := (86400000000000/intervalsPerDay + (1 << 32) - 1) >> 32
 	for _, c := range vTickLog {
 		if c.index == index {
 			rt.Assume(!(c.t <= t) || c.k <= k)
 			rt.Assume(!(t <= c.t) || k <= c.k)
+			// timestamps at least two steps apart get different tick values
+			rt.Assume(!(c.t+2*step <= t) || c.k < k)
+			rt.Assume(!(t+2*step <= c.t) || k < c.k)
 		}
 	}
 	vTickLog = append(vTickLog, vTickCall{index, t, k})
@@ -83,6 +88,16 @@ func VerifC09History() {
 		ticks[i] = io.GetIntervalTicks32Bit(tm, io.TimeToIndex(tm, time.Duration(tfSec)*time.Second), ipd)
 	}
 	rt.Assume(vs[0] != vs[1] && vs[0] != vs[2] && vs[1] != vs[2])
+	// records are identical in time or at least two resolution steps apart (sub-resolution near-ties
+	// are decided by the real encoder's rounding, which the contract stub does not fix)
+	step := (tfSec*1000000000 + (1 << 32) - 1) >> 32
+	for a := 0; a < n; a++ {
+		for b := a + 1; b < n; b++ {
+			ta := (slot[a]+sec[a])*1000000000 + int64(ns[a])
+			tb := (slot[b]+sec[b])*1000000000 + int64(ns[b])
+			rt.Assume(ta == tb || ta+2*step <= tb || tb+2*step <= ta)
+		}
+	}
 	rt.Reach("entered")
 	k := int(rt.Fix(rt.Int("first_request_rows", 1, 2)))
 	var t1, t2 []int64
